@@ -183,6 +183,9 @@ def selftest(tier: str) -> int:
                 cb = self.inner[k]
                 return lambda html: (cb(html), html)[1]
 
+            def get(self, k, default=None):
+                return self[k] if k in self.inner else default
+
         @contextmanager
         def cm():
             orig = dcomp.component_post_render
